@@ -1579,114 +1579,6 @@ func (e *env) runBbs(kind string, nMsgs int, nGen int) {
 	probe("append", append(append([][]byte{}, msgs...), []byte("extra")), append(append([]int{}, ids...), 8), true)
 }
 
-// ---------- key wrapping (ECDH-ES / ECDH-1PU KW key types): wrap to the EXPORTED public key, unwrap with the handle ----------
-
-func (e *env) runKW(kind, kt string, nKeys int) {
-	a := &party{newKMS()}
-
-	fail := func(sig, detail string) {
-		e.tr.Put(&hx.Record{Kind: kind, Oracle: "fail", Sig: sig, Detail: detail, Case: Case{Group: "kw", KT: kt}, Class: "kw/fail/" + sig})
-	}
-
-	for ki := 0; ki < nKeys; ki++ {
-		r := e.rng.Fork(uint64(13000 + ki))
-
-		kid, _, err := a.kms.Create(kms.KeyType(kt))
-		if err != nil {
-			fail("kw:"+kt+":create", err.Error())
-			return
-		}
-
-		okid, _, _ := a.kms.Create(kms.KeyType(kt))
-		oh, _ := a.kms.Get(okid)
-
-		for rot := 0; rot < 3; rot++ {
-			pb, _, err := a.kms.ExportPubKeyBytes(kid)
-			if err != nil {
-				fail("kw:"+kt+":export", err.Error())
-				return
-			}
-
-			pk := &spicrypto.PublicKey{}
-			if err := json.Unmarshal(pb, pk); err != nil {
-				fail("kw:"+kt+":export-format", err.Error())
-				return
-			}
-
-			kh, err := a.kms.Get(kid)
-			if err != nil {
-				fail("kw:"+kt+":get", err.Error())
-				return
-			}
-
-			for _, xc := range []bool{false, true} {
-				cek := r.Bytes(32)
-				apu, apv := r.Bytes(8), r.Bytes(8)
-
-				var opts []spicrypto.WrapKeyOpts
-				if xc {
-					opts = append(opts, spicrypto.WithXC20PKW())
-				}
-
-				wk, err := e.crypto.WrapKey(cek, apu, apv, pk, opts...)
-				if err != nil {
-					fail("kw:"+kt+":wrap", err.Error())
-					continue
-				}
-
-				probe := func(what string, w *spicrypto.RecipientWrappedKey, h interface{}, want bool) {
-					out, uerr := e.crypto.UnwrapKey(w, h, opts...)
-					acc := uerr == nil && string(out) == string(cek)
-					rec := &hx.Record{Kind: kind, Oracle: "ok",
-						Case:     Case{Group: "kw", KT: kt, Variant: fmt.Sprintf("%s/rotations=%d/xc20p=%v", what, rot, xc)},
-						Observed: map[string]interface{}{"accepted": acc, "err": fmt.Sprint(uerr)},
-						Class:    fmt.Sprintf("kw/%s/%s/%d/%v/%v", kt, what, rot, xc, acc),
-						Trivial:  what == "genuine" && rot == 0,
-						Dist:     []string{"group=kw", "kt=" + kt, "kw=" + what, fmt.Sprintf("rotations=%d", rot), fmt.Sprintf("accepted=%v", acc)},
-					}
-
-					if acc != want {
-						w2 := "accepts-altered"
-						if want {
-							w2 = "rejects-genuine"
-						}
-
-						rec.Oracle, rec.Sig = "fail", "kw:"+kt+":"+w2
-						rec.Detail = fmt.Sprintf("%s %s after %d rotation(s) xc20p=%v: unwrap ok=%v (%v)", kt, what, rot, xc, acc, uerr)
-					}
-
-					e.tr.Put(rec)
-				}
-
-				probe("genuine", wk, kh, true)
-				probe("otherkey", wk, oh, false)
-
-				for _, al := range edits(r, len(wk.EncryptedCEK), false) {
-					w2 := *wk
-					w2.EncryptedCEK = al.apply(wk.EncryptedCEK)
-					probe("cek-"+al.Kind, &w2, kh, false)
-				}
-
-				w3 := *wk
-				w3.APU = append(append([]byte{}, apu...), 'x')
-				probe("apu", &w3, kh, false)
-
-				w4 := *wk
-				w4.APV = append(append([]byte{}, apv...), 'x')
-				probe("apv", &w4, kh, false)
-			}
-
-			nk, _, err := a.kms.Rotate(kms.KeyType(kt), kid)
-			if err != nil {
-				fail("kw:"+kt+":rotate", err.Error())
-				return
-			}
-
-			kid = nk
-		}
-	}
-}
-
 // ---------- argument aliasing: every crypto-service call with its arguments as adjacent sub-slices of ONE buffer ----------
 
 // arena lays byte strings out adjacently, in the given order, in one backing array that has spare capacity behind the
